@@ -612,7 +612,7 @@ PROPS["C20"] = {
 PROPS["C02"] = {
     "title": "Curve-curve intersection is sound and complete in either argument order",
     "gen_modules": ["Consts", "Basis", "Section", "Bounds", "CurveBounds", "Lines", "FatLine", "CurveClip", "CurveLine", "Overlaps", "LinearFallback"],
-    "props_modules": ["C02", "C02Overlap", "C13"],
+    "props_modules": ["C02", "C02Overlap", "C02Sound", "C13"],
     "corr_n": (20000, 200000),
     "search_n": (3000, 60000),
     "extended_factor": 2,
@@ -642,6 +642,10 @@ PROPS["C02"] = {
                   "(9) THE LINEAR FALL-BACK (intersections_with_linear_section generated whole, Gen/LinearFallback; the real private function is reached through hook H6 and reproduced bit for bit, op lin): "
                   "linear_fallback_sound - for ANY root solvers every reported (linear_t, curved_t) belongs to a hit of curve_intersects_ray(curved section, ray through the ends of the linear section) and the linear "
                   "section's point at linear_t is within max(accuracy, CLOSE_DISTANCE) of that hit's position, or it is the short-section rescue (linear_t = 0.5, section ends within 0.1, hit within 0.05 of the mid point). "
+                  "linear_fallback_points_close (with C04.hit_sound: the two points of a fall-back answer are within max(accuracy, 0.01), curved_t in [0,1]); solve_for_t_none (t_for_point is complete relative to the solver). "
+                  "(10) END TO END (Props/C02Sound.returned_pairs_are_close): for the context whose callees are the generated overlapping_region / t_for_point / linear fall-back, all pairs of cubics, every accuracy >= 0, "
+                  "every depth and ANY behaviour of the two external root solvers, each returned pair (t1,t2) is two points C1(t1), C2(t2) with squared distance <= 12*accuracy^2, or the mid-parameters of two final sections "
+                  "one of which is is_tiny (the named exit of (4)), or two points within max(accuracy, 0.05) - nothing else is ever returned. "
                   "NOT proved: completeness of the linear fall-back (that the external solver returns every root) and that the overlap shortcut fires only for genuinely overlapping curves (its control-point comparison; external cubic solver; in practice every transversal crossing is reported through the fall-back - the loop's "
                   "own exit is taken in 20 of 200 000 correspondence cases, all of them overlapping pieces of one curve), termination, and therefore completeness and argument-order symmetry as such: these are decided on the real code by the search "
                   "(hull-subdivision + Newton oracle, both orders, accuracies 0.01 and 0.001), which also follows every required crossing through a shadow of the recursion and reports the named step that lost it.",
